@@ -176,6 +176,66 @@ def changed_table_chars():
     return out
 
 
+def table_glyphs():
+    """the characters of the regenerated Unicode table"""
+    import re
+    try:
+        src = open(os.path.join(LEAN, "Svgbob", "Gen", "UnicodeTable.lean"), encoding="utf-8").read()
+    except OSError:
+        return ""
+    out = []
+    for m in re.finditer(r"^  \('((?:\\.|[^'\\])+)',", src, re.M):
+        ch = {"\\\\": "\\", "\\'": "'"}.get(m.group(1), m.group(1))
+        if len(ch) == 1 and ch not in out:
+            out.append(ch)
+    return "".join(out)
+
+
+def reference_model_bin():
+    """the model driver built with the COMMITTED reference copy of the generated tables (git HEAD of /verif) instead of
+    the regenerated ones — only when the regenerated tables differ from that copy. Where this driver and the
+    implementation disagree is where the behaviour of the tables changed. None when nothing changed or it cannot be built."""
+    import hashlib
+    import shutil
+    if not changed_table_chars():
+        return None
+    names = ["AsciiTable.lean", "UnicodeTable.lean", "CircleArt.lean", "Consts.lean", "Thresholds.lean", "StyleSheet.lean"]
+    ref = {}
+    for n in names:
+        rc, txt = sh(["git", "-C", VERIF, "show", "HEAD:lean/Svgbob/Gen/" + n], timeout=60)
+        if rc != 0:
+            return None
+        ref[n] = txt
+    h = hashlib.sha256()
+    for n in names:
+        h.update(ref[n].encode("utf-8"))
+    for root, _, files in os.walk(os.path.join(LEAN, "Svgbob", "Model")):
+        for f in sorted(files):
+            h.update(open(os.path.join(root, f), "rb").read())
+    h.update(open(os.path.join(LEAN, "Driver.lean"), "rb").read())
+    d = os.path.join(BUILD, "refmodel")
+    binp = os.path.join(d, ".lake", "build", "bin", "svgbob_model")
+    stamp = os.path.join(d, "stamp")
+    with Lock("refmodel.lock"):
+        if os.path.exists(binp) and os.path.exists(stamp) and open(stamp).read() == h.hexdigest():
+            return binp
+        shutil.rmtree(d, ignore_errors=True)
+        os.makedirs(os.path.join(d, "Svgbob"))
+        for f in ("lakefile.toml", "Driver.lean"):
+            shutil.copy(os.path.join(LEAN, f), os.path.join(d, f))
+        for sub in ("Model", "Spec"):
+            shutil.copytree(os.path.join(LEAN, "Svgbob", sub), os.path.join(d, "Svgbob", sub))
+        os.makedirs(os.path.join(d, "Svgbob", "Gen"))
+        for n in names:
+            open(os.path.join(d, "Svgbob", "Gen", n), "w", encoding="utf-8").write(ref[n])
+        open(os.path.join(d, "Svgbob.lean"), "w").write("import Svgbob.Model.Convert\n")
+        rc, out = sh(["lake", "build", "svgbob_model"], cwd=d, timeout=1800)
+        if rc != 0 or not os.path.exists(binp):
+            return None
+        open(stamp, "w").write(h.hexdigest())
+        return binp
+
+
 def lake_build(targets):
     with Lock("lake.lock"):
         rc, out = sh(["lake", "build"] + list(targets), cwd=LEAN, timeout=3600)
@@ -392,8 +452,8 @@ def run_impl(mode, lines, timeout=600, nproc=None, stall=None):
                       preamble=lib_preamble() if mode == "lib" else None)
 
 
-def run_model(mode, lines, timeout=600, nproc=None, stall=None):
-    return _run_lines(MODEL_BIN, mode, lines, timeout, nproc, stall=stall)
+def run_model(mode, lines, timeout=600, nproc=None, stall=None, binary=None):
+    return _run_lines(binary or MODEL_BIN, mode, lines, timeout, nproc, stall=stall)
 
 
 def env_tables(inputs):
